@@ -112,7 +112,8 @@ class AbstractItemEncoder(object):
 
                 if LOG:
                     LOG('encoded %svalue %s into %s' % (
-                        isConstructed and 'constructed ' or '', value, substrate
+                        isConstructed and 'constructed ' or '',
+                        SingleItemEncoder._printable(value), substrate
                     ))
 
                 if not substrate and isConstructed and options.get('ifNotEmpty', False):
@@ -878,6 +879,16 @@ class SingleItemEncoder(object):
         self._tagMap = options.get('tagMap', self.TAG_MAP)
         self._typeMap = options.get('typeMap', self.TYPE_MAP)
 
+    @staticmethod
+    def _printable(value):
+        # debug logging must not fail a call that succeeds without it:
+        # e.g. OCTET STRING contents need not be text in its `encoding`
+        try:
+            return str(value)
+
+        except Exception:
+            return '<unprintable %s object>' % value.__class__.__name__
+
     def __call__(self, value, asn1Spec=None, **options):
         try:
             if asn1Spec is None:
@@ -894,7 +905,8 @@ class SingleItemEncoder(object):
                 'value:\n%s' % (not options.get('defMode', True) and 'in' or '',
                                 options.get('maxChunkSize', 0),
                                 asn1Spec is None and value.prettyPrintType() or
-                                asn1Spec.prettyPrintType(), value))
+                                asn1Spec.prettyPrintType(),
+                                self._printable(value)))
 
         if self.fixedDefLengthMode is not None:
             options.update(defMode=self.fixedDefLengthMode)
